@@ -678,6 +678,11 @@ def realise_thdiv(item):
     b_, q_ = ufl.split(v)
     dX = dx(metadata=custom_md(cell, item["th"].get("rule", 0)))
     form = (inner(div(a_), div(b_)) + inner(p_, q_) + inner(a_, b_)) * dX
+    if item["th"].get("coef"):
+        # coefficient g (first in the form's order) only in the off-diagonal blocks, f only in the diagonal ones
+        g = ufl.Coefficient(ufl.FunctionSpace(dom, make_element("P1", cell, td)))
+        f = ufl.Coefficient(ufl.FunctionSpace(dom, make_element("P1", cell, td)))
+        form = (f * inner(a_, b_) + f * inner(p_, q_) + g * inner(p_, div(b_)) + g * inner(div(a_), q_)) * dX
     if item["th"].get("coupled"):
         form = form + (inner(p_, div(b_)) + 2 * inner(div(a_), q_)) * dX      # off-diagonal blocks of the mixed space
     return {"form": form, "exact_ok": True, "case": item["th"]}
